@@ -32,6 +32,8 @@
 //    map:    map<int32_t,int32_t> {set, append, get, values, copy} against an ordered vector of pairs.
 //    refs:   reference_array<T> | item_array<T> of counted objects (round 5): grown across the 64/192/320-byte capacity steps,
 //            shared (=, copy), modified (insert/append, resize); NoCopy flag kept, writes through a shared handle refused.
+//    encode: mpt::encode_array without encoder (round 6): push, push(0,0), data(), shift(n), shift(), prepare(n), copy / assignment.
+// Round 6: buffers created by _mpt_buffer_map (one page and more) are a seed kind of the raw flavour.
 // Round 5: user flags of a buffer (NoCopy, other user bits) are modelled per handle and must survive every operation
 //    (flag-lost / flag-gained); a shared NoCopy buffer with data is never copied (nocopy-copied).
 #include "vp.hpp"
@@ -230,12 +232,16 @@ struct World {
   // operation is possible may depend on its arguments and on the content, not on who else holds the buffer, on its
   // flags or on the slack of the allocation (the array calls exist to hide exactly that: they grow / detach as
   // needed). The twin accepting what the handle refused is reported as refused-by-state:<op>.
-  // Exempt (documented state dependent refusal): a buffer flagged NoCopy that is shared cannot be detached (ENOTSUP).
+  // Exempt (documented state dependent refusals): a buffer flagged NoCopy that is shared cannot be detached (ENOTSUP);
+  // a memory mapped buffer with a content type cannot be copied at all.
   template <typename F> void twin_check(const char *op, int i, F call) {
     CBuf *b = h[i].buf();
     if (!b || h[i].kind != KArray) return;
     uint32_t fl = flags(b);
     if ((fl & BufferNoCopy) && sharers(b) > 1) { c.label("twin:exempt-nocopy"); return; }
+    // second documented limitation: the memory mapped backend copies raw bytes only ("only detach raw buffer", ENOTSUP);
+    // a mapped buffer that was given a content type by mpt_array_reserve cannot get a private copy
+    if ((fl & BufferMapped) && b->traits) { c.label("twin:exempt-mapped-typed"); return; }
     CBuf *tb = reinterpret_cast<CBuf *>(_mpt_buffer_alloc(b->used + 1024, 0));
     VP_CHECK(c, tb && tb->size >= b->used + 1024, "alloc-failed", "_mpt_buffer_alloc(%zu) for the twin", b->used + 1024);
     tb->traits = b->traits;
@@ -243,8 +249,9 @@ struct World {
     tb->used = b->used;
     CObj<array> ta;
     cbuf(ta.get()) = tb;
+    size_t tsize = tb->size;   // the call may replace the twin's buffer
     bool accepted = call(ta.get());
-    c.logf("    twin (private, mutable, %zu bytes, size %zu): %s", b->used, tb->size, accepted ? "accepted" : "refused");
+    c.logf("    twin (private, mutable, %zu bytes, size %zu): %s", b->used, tsize, accepted ? "accepted" : "refused");
     mpt_array_clone(ta.get(), 0);
     c.label(accepted ? "twin:accepted" : "twin:refused");
     VP_CHECK(c, !accepted, tag("refused-by-state", op), "%s was refused on %s but the same call is accepted on a private mutable array with the same %zu bytes and more room", op, desc(i).c_str(), b->used);
@@ -457,7 +464,7 @@ struct World {
     int i = pick_array(true);
     Handle &x = h[i];
     CBuf *b = x.buf();
-    if (!b) { c.label("skip:detach"); return; }
+    if (!b) { c.label("skip"); return; }
     size_t used = b->used, cap = b->size, e = esz(b->traits);
     size_t len = al(c.near({0, used, used ? used - 1 : 0, cap, cap + 1, 64, 128, 192}, mx(b, 400)), e);
     Pre p = pre(i, len > cap);
@@ -482,7 +489,7 @@ struct World {
 
   void op_binsert() {
     int i = pick_private(false);
-    if (i < 0) { c.label("skip:buffer_insert"); return; }
+    if (i < 0) { c.label("skip"); return; }
     Handle &x = h[i];
     CBuf *b = x.buf();
     size_t used = b->used, cap = b->size, e = esz(b->traits);
@@ -510,7 +517,7 @@ struct World {
 
   void op_bcut() {
     int i = pick_private(true);
-    if (i < 0) { c.label("skip:buffer_cut"); return; }
+    if (i < 0) { c.label("skip"); return; }
     Handle &x = h[i];
     CBuf *b = x.buf();
     size_t used = b->used, cap = b->size, e = esz(b->traits);
@@ -532,7 +539,7 @@ struct World {
 
   void op_bset() {
     int i = pick_private(true);
-    if (i < 0) { c.label("skip:buffer_set"); return; }
+    if (i < 0) { c.label("skip"); return; }
     Handle &x = h[i];
     CBuf *b = x.buf();
     size_t used = b->used, cap = b->size, e = esz(b->traits);
@@ -564,7 +571,7 @@ struct World {
     int i = pickh([](Handle &x) { return x.kind != KEnc; });
     if (i < 0) { i = (int)c.pick(NH); }
     int s = pickh([&](Handle &y) { return y.kind != KSlice && &y != &h[i]; });
-    if (s < 0) { c.label("skip:mkslice"); return; }
+    if (s < 0) { c.label("skip"); return; }
     if (h[i].buf() || h[i].kind != KArray) release(i, "release");
     Handle &x = h[i];
     size_t total = h[s].m.size();
@@ -585,7 +592,7 @@ struct World {
 
   void op_swrite() {
     int i = pickh([](Handle &x) { return x.kind == KSlice; });
-    if (i < 0) { c.label("skip:slice_write"); return; }
+    if (i < 0) { c.label("skip"); return; }
     Handle &x = h[i];
     CBuf *b = x.buf();
     size_t end = x.sl->_off + x.sl->_len, avail = b ? b->size - end : 0;
@@ -990,7 +997,7 @@ struct CxxBytes {
     if (sh) { c.label("cxx-nt:write-while-shared"); c.nontrivial(); }
     return sh;
   }
-  void outcome(const char *op, bool ok) { c.label((std::string(ok ? "cxx-ok:" : "cxx-refused:") + op).c_str()); }
+  void outcome(const char *op, bool ok) { if (!ok && (op[0] == '+' || op[0] == '=')) op = "operator"; c.label((std::string(ok ? "cxx-ok:" : "cxx-refused:") + op).c_str()); }
   size_t dsize(int i, size_t max) { size_t used = a[i]->length(), cap = used + a[i]->left(); return c.near({0, used, cap, 64, 128, 192}, max); }
 
   void run() {
@@ -1253,7 +1260,10 @@ struct CxxTyped {
     if (c.verbose()) { std::string l; for (int i = 0; i < NA; i++) l += " a" + std::to_string(i) + "=" + show(m[i]); c.logf("     %s", l.c_str()); }
   }
   bool wsh = false;   // a write is about to go through a handle that shares a buffer holding elements
-  void outcome(const char *op, bool ok) { c.label(ok ? (std::string("cxx-ok:") + name + "." + op).c_str() : (std::string("cxx-refused:typed.") + op).c_str()); }
+  void outcome(const char *op, bool ok) {
+    if (ok && (!strcmp(op, "assign") || !strcmp(op, "copy"))) op = "share";   // (the engine keeps 160 labels)
+    c.label(ok ? (std::string("cxx-ok:") + name + "." + op).c_str() : (std::string("cxx-refused:typed.") + op).c_str());
+  }
   bool shares(int i) { for (int j = 0; j < NA; j++) if (j != i && a[j]->length() && a[j]->begin() == a[i]->begin()) return true; return false; }
   void writing(int i) { if (shares(i)) { c.label("cxx-nt:write-while-shared"); c.nontrivial(); wsh = true; } }
   // model position of a possibly negative index (documented: negative counts from the end); -1 = outside
@@ -1632,10 +1642,155 @@ struct CxxRef {
   }
 };
 
+// ---- mpt::encode_array in raw mode (no encoder: push appends bytes), round 6 --------------------------------------------
+// The array holds [consumed | finished | open]: push(len, data) adds open bytes, push(0, 0) finishes them, data() shows the
+// finished bytes, shift(n) consumes n of them, shift() moves the rest to the buffer front, prepare(n) reserves room.
+// Copies (construction, assignment) share the buffer. Pushes are only issued on a compacted array (nothing consumed in
+// front): that is the order the buffered writers use (shift() before new data); the encoder driven use is C01's subject.
+struct CxxEnc {
+  struct Model { std::vector<uint8_t> cons, fin, open; };
+  Ctx &c;
+  enum { NA = 3 };
+  encode_array *e[NA];
+  Model m[NA];
+  explicit CxxEnc(Ctx &cc) : c(cc) { for (auto &x : e) x = 0; }
+
+  std::vector<uint8_t> pattern(size_t n) {
+    uint8_t sd = c.u8();
+    std::vector<uint8_t> v(n);
+    for (size_t i = 0; i < n; i++) { uint8_t b = (uint8_t)(sd + 3 * i); v[i] = b ? b : 0x5a; }
+    return v;
+  }
+  static std::vector<uint8_t> whole(const Model &x) {
+    std::vector<uint8_t> v = x.cons;
+    v.insert(v.end(), x.fin.begin(), x.fin.end());
+    v.insert(v.end(), x.open.begin(), x.open.end());
+    return v;
+  }
+  std::string desc(int i) {
+    char t[160];
+    const array::content *d = e[i]->_d.data();
+    snprintf(t, sizeof t, "e%d{buffer %zu bytes%s, done=%zu scratch=%zu | model consumed=%zu finished=%zu open=%zu}", i, d ? d->length() : 0, e[i]->_d.shared() ? " shared" : "", e[i]->_state.done,
+             e[i]->_state.scratch, m[i].cons.size(), m[i].fin.size(), m[i].open.size());
+    return t;
+  }
+  void differ(const char *cls, const char *op, int i, const char *what, const std::vector<uint8_t> &got, const std::vector<uint8_t> &want) {
+    size_t d = 0;
+    while (d < got.size() && d < want.size() && got[d] == want[d]) ++d;
+    size_t from = d > 8 ? d - 8 : 0;
+    c.fail(vtag(cls, (std::string("encode_array.") + op).c_str()).c_str(), "after %s: %s of %s reads %zu bytes, the value model has %zu; first difference at %zu: read ..%s, model ..%s", op, what, desc(i).c_str(), got.size(),
+           want.size(), d, hex(got.data() + std::min(from, got.size()), got.size() - std::min(from, got.size()), 24).c_str(), hex(want.data() + std::min(from, want.size()), want.size() - std::min(from, want.size()), 24).c_str());
+  }
+  void verify(const char *op, int target, bool refused) {
+    for (int k = 0; k < NA; k++) {
+      int i = (target + 1 + k + NA + 1) % NA;
+      const char *cls = refused ? "refused-changed" : i == target ? "target-mismatch" : "other-changed";
+      const array::content *d = e[i]->_d.data();
+      size_t len = d ? d->length() : 0;
+      std::vector<uint8_t> all = whole(m[i]);
+      // accounting first: data() is computed from the length and the two counters
+      VP_CHECK(c, e[i]->_state.done + e[i]->_state.scratch <= len, vtag("encode-accounting", (std::string("encode_array.") + op).c_str()).c_str(), "after %s: %s: done + scratch exceed the array length", op, desc(i).c_str());
+      std::vector<uint8_t> got(d ? (const uint8_t *)d->data() : 0, d ? (const uint8_t *)d->data() + len : 0);
+      if (got != all) differ(cls, op, i, "the array", got, all);
+      span<const uint8_t> f = e[i]->data();
+      std::vector<uint8_t> fin(f.begin(), f.begin() + f.size());
+      if (fin != m[i].fin) differ(cls, op, i, "data()", fin, m[i].fin);
+    }
+    if (c.verbose()) for (int i = 0; i < NA; i++) c.logf("      %s", desc(i).c_str());
+  }
+  bool shared(int i) { return e[i]->_d.shared(); }
+  void run() {
+    c.label("cxx:encode_array");
+    c.logf("C++ API history: mpt::encode_array without encoder");
+    for (int i = 0; i < NA; i++) e[i] = new encode_array();
+    verify("create", -1, false);
+    unsigned nops = 0;
+    while (c.more() && nops++ < 40) {
+      int i = (int)c.pick(NA), j = (int)c.pick(NA);
+      encode_array &x = *e[i];
+      Model &mm = m[i];
+      unsigned op = (unsigned)c.weighted({10, 5, 5, 5, 5, 6, 3});
+      if (op == 0 && !mm.cons.empty()) op = 3;   // compact before new data
+      bool sh = shared(i);
+      if (sh && (op == 0 || op == 3 || op == 4)) { c.label("cxx-nt:write-while-shared"); c.nontrivial(); }
+      switch (op) {
+        case 0: {  // push data
+          size_t left = x._d.left();
+          size_t len = c.near({1, left, left + 1, 64, 128}, 200);
+          if (!len) len = 1;
+          std::vector<uint8_t> d = pattern(len);
+          c.logf("  e%d.push(%zu, %s)   [%s]", i, len, hex(d.data(), d.size(), 8).c_str(), desc(i).c_str());
+          ssize_t r = x.push(len, d.data());
+          c.logf("    = %zd", r);
+          if (r >= 0) { VP_CHECK(c, (size_t)r <= len, "cxx-push-count", "push(%zu) consumed %zd", len, r); mm.open.insert(mm.open.end(), d.begin(), d.begin() + r); }
+          c.label(r >= 0 ? "cxx-ok:enc.push" : "cxx-refused:enc"); verify("push", i, r < 0);
+        } break;
+        case 1: {  // finish the open bytes
+          c.logf("  e%d.push(0, NULL)   [%s]", i, desc(i).c_str());
+          ssize_t r = x.push(0, 0);
+          c.logf("    = %zd", r);
+          if (r >= 0) { mm.fin.insert(mm.fin.end(), mm.open.begin(), mm.open.end()); mm.open.clear(); }
+          c.label(r >= 0 ? "cxx-ok:enc.finish" : "cxx-refused:enc"); verify("finish", i, r < 0);
+        } break;
+        case 2: {  // consume finished bytes
+          size_t n = c.near({1, mm.fin.size(), mm.fin.size() + 1}, mm.fin.size() + 3);
+          if (!n) n = 1;
+          bool must = n > mm.fin.size();
+          c.logf("  e%d.shift(%zu)%s   [%s]", i, n, must ? " more than finished" : "", desc(i).c_str());
+          bool r = x.shift(n);
+          c.logf("    = %d", r);
+          VP_CHECK(c, !(must && r), "cxx-not-refused:encode_array.shift", "shift(%zu) accepted with %zu finished bytes", n, mm.fin.size());
+          if (r) { mm.cons.insert(mm.cons.end(), mm.fin.begin(), mm.fin.begin() + n); mm.fin.erase(mm.fin.begin(), mm.fin.begin() + n); }
+          c.label(r ? "cxx-ok:enc.shift" : "cxx-refused:enc"); verify("shift", i, !r);
+        } break;
+        case 3: {  // move the unconsumed bytes to the front
+          c.logf("  e%d.shift()   [%s]", i, desc(i).c_str());
+          bool r = x.shift();
+          c.logf("    = %d", r);
+          if (r) { if (!mm.cons.empty()) c.label(sh ? "cxx-ok:enc.compact-shared" : "cxx-ok:enc.compact"); mm.cons.clear(); }
+          else c.label("cxx-refused:enc");
+          verify("shift0", i, !r);
+        } break;
+        case 4: {  // reserve room: nothing readable changes
+          size_t n = c.near({0, 1, x._d.left(), x._d.left() + 1, 64, 100}, 300);
+          c.logf("  e%d.prepare(%zu)   [%s]", i, n, desc(i).c_str());
+          bool r = x.prepare(n);
+          c.logf("    = %d", r);
+          c.label(r ? "cxx-ok:enc.prepare" : "cxx-refused:enc"); verify("prepare", i, !r);
+        } break;
+        case 5: {  // assignment: both handles on one buffer
+          c.logf("  e%d = e%d", i, j);
+          x = *e[j];
+          mm = m[j];
+          c.label("cxx-ok:enc.share"); verify("assign", i, false);
+        } break;
+        default: {  // copy construction
+          c.logf("  e%d = encode_array(e%d)", i, j);
+          encode_array *n = new encode_array(*e[j]);
+          Model keep = m[j];
+          delete e[i];
+          e[i] = n;
+          m[i] = keep;
+          c.label("cxx-ok:enc.share"); verify("copy", i, false);
+        } break;
+      }
+    }
+    for (int i = 0; i < NA; i++) {
+      c.logf("  delete e%d", i);
+      delete e[i];
+      e[i] = new encode_array();
+      m[i] = Model();
+      verify("delete", i, false);
+    }
+    for (int i = 0; i < NA; i++) { delete e[i]; e[i] = 0; }
+  }
+};
+
 void run_cxx(Ctx &c) {
   // objects are abandoned when an oracle fails (see run)
-  // one byte: the 16 highest values select the scenario added later, every other value keeps its meaning (byte % 12)
+  // one byte: the 24 highest values select the scenarios added later, every other value keeps its meaning (byte % 12)
   unsigned byte = (unsigned)c.range(0, 255);
+  if (byte >= 232 && byte < 240) { CxxEnc *w = new CxxEnc(c); w->run(); delete w; return; }   // round 6
   if (byte >= 240) {
     if (byte & 1) { auto *w = new CxxRef<reference_array<RObj> >(c, "reference_array", sizeof(reference<RObj>)); w->run(); delete w; }
     else { auto *w = new CxxRef<item_array<RObj> >(c, "item_array", sizeof(item<RObj>)); w->run(); delete w; }
